@@ -411,6 +411,11 @@ func genC13(r *prng) *plan {
 	n := 3 + r.intn(7)
 	for i := 0; i < n; i++ {
 		p.Ops = append(p.Ops, opSpec{K: "offer", N: []int64{int64(r.intn(3)), int64(r.intn(18)), int64(r.intn(3)), int64(r.u64() >> 1)}})
+		if r.chance(25) {
+			// the same key from two peers at once: an honest item and, arriving a little later, a corrupted
+			// one (both are accepted when no in-flight verdict exists, i.e. over version 0)
+			p.Ops = append(p.Ops, opSpec{K: "dual", N: []int64{int64(r.intn(3)), int64(1 + r.intn(9)), int64(r.intn(3000)), int64(r.u64() >> 1)}})
+		}
 	}
 	// a third of the runs lose, duplicate and delay packets: offers, transfers and the header lookups the
 	// validator depends on then fail half-way; nothing may be accepted that would not be accepted otherwise
@@ -432,6 +437,9 @@ func runC13(seed uint64) {
 	V := w.newFullNode(nodeCfg{name: "V", port: 9001, key: detKey(seed, 1), versions: vv, maxUtp: 20, capacityMB: 1000}, []string{"history", "state"})
 	H := w.newContentPeer(nodeCfg{name: "H", port: 9002, key: detKey(seed, 2), versions: vv, maxUtp: 50}, vv)
 	B := w.newContentPeer(nodeCfg{name: "B", port: 9003, key: detKey(seed, 3), versions: vv, maxUtp: 50}, vv)
+	// G only listens: it reports a radius so that the node gossips to it, accepts and keeps what it is sent
+	G := w.newContentPeer(nodeCfg{name: "G", port: 9004, key: detKey(seed, 4), versions: vv, maxUtp: 50}, vv)
+	G.acceptGossip, H.acceptGossip, B.acceptGossip = true, true, true
 	for _, ni := range V.nets {
 		ni.p.AddEnr(H.self())
 		ni.p.AddEnr(B.self())
@@ -459,6 +467,10 @@ func runC13(seed uint64) {
 		}
 	}
 	st := V.nets["state"]
+	w.spawn("sink-contact", func() error {
+		_, e := G.talk(V.self(), portalwire.State, encPing(G.self().Seq(), 0, encRadiusPayload(0, maxU256)))
+		return e
+	})
 	w.runFor(50 * time.Millisecond)
 	if p.cfg("faults") == 1 {
 		w.res.Class = "net-faults"
@@ -476,6 +488,33 @@ func runC13(seed uint64) {
 	for opi, op := range p.Ops {
 		rs := newPrng(uint64(op.n(3)) + 5)
 		kind := op.n(0) % 3
+		if op.K == "dual" {
+			key, val, _ := c13Item(rs, w1, w2, kind, 0)
+			if key == nil {
+				continue
+			}
+			bad := mutate(rs, val, int(op.n(1)))
+			_, whyBad := judgeState(headers, key, bad)
+			B.dialDelay = time.Duration(op.n(2)) * time.Millisecond
+			t1 := w.spawn("offer-honest", func() error {
+				_, e := H.offerTo(V.self(), portalwire.State, vv, [][]byte{key}, [][]byte{val})
+				return e
+			})
+			t2 := w.spawn("offer-corrupted", func() error {
+				_, e := B.offerTo(V.self(), portalwire.State, vv, [][]byte{key}, [][]byte{bad})
+				return e
+			})
+			w.runUntil(func() bool { return t1.done && t2.done }, 120*time.Second)
+			B.dialDelay = 0
+			w.runFor(8 * time.Second)
+			w.op("dual#%d kind=%s honest and corrupted (mutation %d, %d ms later) item under one key; oracle for the corrupted one: %s", opi, []string{"account-node", "storage-node", "bytecode"}[kind], op.n(1), op.n(2), orBound(whyBad))
+			w.abstract("dual k%d m%d", kind, op.n(1))
+			w.probe("dual_offers")
+			if len(V.panics) > 0 {
+				break
+			}
+			continue
+		}
 		mut := int(op.n(1))
 		key, val, desc := c13Item(rs, w1, w2, kind, mut)
 		if key == nil {
@@ -511,6 +550,16 @@ func runC13(seed uint64) {
 		w.violate("C13", "panic", "%s panicked instead of rejecting with an error: %v @ %s", pr.where, pr.val, shisuiFrames(pr.stack))
 		w.violate("C01", "panic", "%s panicked: %v @ %s", pr.where, pr.val, shisuiFrames(pr.stack))
 	}
+	// everything the node passed on to its neighbours must be a valid item
+	for _, cp := range []*contentPeer{G, H, B} {
+		for _, gi := range cp.gossiped {
+			if _, why := judgeState(headers, gi.key, gi.val); why != "" {
+				w.violate("C13", "gossiped-invalid", "the node gossiped key %x.. (%d bytes) to %s: %s", head(gi.key, 6), len(gi.val), cp.cfg.name, why)
+			} else {
+				w.probe("gossiped_valid")
+			}
+		}
+	}
 	for _, vr := range st.val.calls {
 		if vr.err != nil {
 			w.probe("validator_rejected")
@@ -544,7 +593,7 @@ func runC13(seed uint64) {
 			w.probe("stored_exact")
 		}
 	}
-	w.res.Nontrivial = len(all) > 0
+	w.res.Nontrivial = len(all) > 0 || w.res.Probes["dual_offers"] > 0
 	w.finish()
 }
 
